@@ -902,7 +902,7 @@ func (v *view) oracleC04() {
 		if ev.RSeq == 0 || ev.RSeq < v.ctxSeq || ev.Err == nil {
 			continue
 		}
-		if v.cutBefore(ev.RSeq) {
+		if v.cutBefore(ev.RSeq) || ev.Flags["mismatch"] == "1" {
 			continue
 		}
 		v.relevant("C04")
